@@ -1296,6 +1296,14 @@ namespace chaiscript {
         return false;
       }
 
+      /// Boxes the C++ exception that is currently being handled. The box shares ownership of the
+      /// in-flight exception object, so a script that keeps it (reference assignment, capture,
+      /// rethrow) never holds a reference to a destroyed exception.
+      template<typename Exception>
+      static Boxed_Value current_exception(const Exception &t_e) {
+        return Boxed_Value(std::shared_ptr<const Exception>(std::make_shared<std::exception_ptr>(std::current_exception()), &t_e));
+      }
+
       Boxed_Value eval_internal(const chaiscript::detail::Dispatch_State &t_ss) const override {
         Boxed_Value retval;
 
@@ -1307,19 +1315,19 @@ namespace chaiscript {
           try {
             retval = this->children[0]->eval(t_ss);
           } catch (const exception::eval_error &e) {
-            if (!handle_exception(t_ss, Boxed_Value(std::ref(e)), retval)) {
+            if (!handle_exception(t_ss, current_exception(e), retval)) {
               throw;
             }
           } catch (const std::runtime_error &e) {
-            if (!handle_exception(t_ss, Boxed_Value(std::ref(e)), retval)) {
+            if (!handle_exception(t_ss, current_exception(e), retval)) {
               throw;
             }
           } catch (const std::out_of_range &e) {
-            if (!handle_exception(t_ss, Boxed_Value(std::ref(e)), retval)) {
+            if (!handle_exception(t_ss, current_exception(e), retval)) {
               throw;
             }
           } catch (const std::exception &e) {
-            if (!handle_exception(t_ss, Boxed_Value(std::ref(e)), retval)) {
+            if (!handle_exception(t_ss, current_exception(e), retval)) {
               throw;
             }
           } catch (Boxed_Value &e) {
